@@ -80,6 +80,11 @@ CLAIMED = {
             "Decides: the server nonce must extend the client's before anything is derived; login completes only through a full-equality "
             "comparison of the server signature; every key / proof / transcript attribute has the single RFC 5802 definition, recomputed "
             "per login from this exchange's salt and iteration count; '=' is escaped before ','. HMAC/PBKDF2 values are not decided."),
+    "C17": ("symbolic 32-bit term evaluation of murmur2's AST compared with the Java algorithm's terms (initial value, block step, four "
+            "tails, finaliser), interval analysis of shift operands and result, data-flow rules on the partitioner and its inputs",
+            "Decides: murmur2 computes, modulo 2^32, exactly the Java terms with the Java constants for every tail length; every value "
+            "shifted right or returned is within [0,2^32); the keyed route is all_partitions[(hash & 0x7fffffff) % n] with no influence of "
+            "availability; all_partitions is ordered by id; unkeyed records prefer available partitions. No concrete key is hashed."),
 }
 
 NA = {
